@@ -1,0 +1,39 @@
+//go:build verif
+
+package importer
+
+//@ scan[C09.globals.importer] C09 pkgglobals github.com/risor-io/risor/importer:
+
+// The local importer's code cache is shared by every VM that uses the importer: accessed only under its mutex.
+//@ guardedfield LocalImporter.codeCache mutex
+
+//@ func (*LocalImporter).Import
+//@ props C09
+//@ requires i != nil
+//@ requires[C09.unlocked] !ghost("lock.w", bool, &i.mutex)
+//@ havoc parseAndCompile readFileWithExtensions NewModule
+//@ modcomps H_ E_ M G_ C_
+//@ modifies ghost("lock.w", bool, &i.mutex)
+//@ assumeframe
+//@ ensures[C09.released] !ghost("lock.w", bool, &i.mutex)
+
+//@ scan[C09.importer.cache.users] C09 fieldwriters LocalImporter.codeCache: NewLocalImporter Import
+
+// Importers do not touch the VM's mutexes or registers (assumed for every implementation).
+//@ func (Importer).Import
+//@ trusted
+//@ modcomps H_compiler_ H_object_ H_importer_ H_ast_ H_parser_ H_lexer_ E_ M G_ C_
+
+// ---- C14: which file an import reads ----------------------------------------------------------------------------
+// The only file names tried are Join(dir, name+ext) for the configured extensions, in order; the first that can be
+// read wins. With a validated name (parser: identifiers separated by '/', so no "..", not absolute) Join keeps the
+// result under dir (assumed property of filepath.Join, as in C13).
+//@ external os.ReadFile
+//@ modifies nothing
+
+//@ func readFileWithExtensions
+//@ props C14
+//@ modifies nothing
+//@ invariant 1: true
+//@ ensures[C14.file.name] result2 ==> exists(k, 0, len(extensions), result1 == uf("join2", string, dir, name + extensions[k]))
+//@ ensures[C14.file.none] !result2 ==> result0 == "" && result1 == ""
